@@ -605,12 +605,17 @@ func (c *Client) Do(m *Message, f func(Event)) error {
 	return nil
 }
 
-func (c *Client) delete(id transactionID) {
+// delete unregisters the transaction and reports whether it was still
+// registered.
+func (c *Client) delete(id transactionID) bool {
 	c.mux.Lock()
-	if c.t != nil {
+	_, found := c.t[id]
+	if found {
 		delete(c.t, id)
 	}
 	c.mux.Unlock()
+
+	return found
 }
 
 type buffer struct {
@@ -625,16 +630,26 @@ var bufferPool = &sync.Pool{ //nolint:gochecknoglobals
 
 func (c *Client) handleAgentCallback(event Event) { //nolint:cyclop
 	c.mux.Lock()
-	if c.closed {
-		c.mux.Unlock()
-
-		return
-	}
+	closed := c.closed
 	transaction, found := c.t[event.TransactionID]
 	if found {
 		delete(c.t, transaction.id)
 	}
 	c.mux.Unlock()
+	if closed {
+		// The client is closing: no retransmissions and no fallback handler,
+		// but a transaction that is still in flight must be completed, or its
+		// handler would never be called (and Do would block forever).
+		if found {
+			if errors.Is(event.Error, ErrTransactionTimeOut) {
+				event.Error = ErrClientClosed
+			}
+			transaction.handle(event)
+			putClientTransaction(transaction)
+		}
+
+		return
+	}
 	if !found {
 		if c.handler != nil && !errors.Is(event.Error, ErrTransactionStopped) {
 			c.handler(event)
@@ -731,7 +746,12 @@ func (c *Client) Start(msg *Message, handler Handler) error {
 	}
 	_, err := msg.WriteTo(c.c)
 	if err != nil && handler != nil {
-		c.delete(msg.TransactionID)
+		if !c.delete(msg.TransactionID) {
+			// The transaction has already been completed concurrently (the
+			// client was closed after it was registered): the handler gets
+			// the outcome, so the error must not be reported a second time.
+			return nil
+		}
 		// Stopping transaction instead of waiting until deadline.
 		if stopErr := c.a.Stop(msg.TransactionID); stopErr != nil {
 			return StopErr{
